@@ -341,6 +341,7 @@ impl<K, V> TreeBin<K, V> {
             Ordering::SeqCst,
             0,
             WRITER as isize,
+            line!(),
         );
         if self
             .lock_state
@@ -362,6 +363,7 @@ impl<K, V> TreeBin<K, V> {
             Ordering::Release,
             0,
             0,
+            line!(),
         );
         self.lock_state.store(0, Ordering::Release);
     }
@@ -379,6 +381,7 @@ impl<K, V> TreeBin<K, V> {
                 Ordering::Acquire,
                 0,
                 0,
+                line!(),
             );
             state = self.lock_state.load(Ordering::Acquire);
             if state & !WAITER == 0 {
@@ -391,6 +394,7 @@ impl<K, V> TreeBin<K, V> {
                     Ordering::SeqCst,
                     state as isize,
                     WRITER as isize,
+                    line!(),
                 );
                 if self
                     .lock_state
@@ -434,6 +438,7 @@ impl<K, V> TreeBin<K, V> {
                     Ordering::SeqCst,
                     state as isize,
                     (state | WAITER) as isize,
+                    line!(),
                 );
                 if self
                     .lock_state
@@ -496,6 +501,7 @@ impl<K, V> TreeBin<K, V> {
                 Ordering::SeqCst,
                 0,
                 0,
+                line!(),
             );
             let s = bin_deref.lock_state.load(Ordering::SeqCst);
             #[cfg(flurry_verif)]
@@ -507,6 +513,7 @@ impl<K, V> TreeBin<K, V> {
                     Ordering::SeqCst,
                     s as isize,
                     (s + READER) as isize,
+                    line!(),
                 );
             }
             if s & (WAITER | WRITER) != 0 {
@@ -547,6 +554,7 @@ impl<K, V> TreeBin<K, V> {
                     Ordering::SeqCst,
                     -READER as isize,
                     0,
+                    line!(),
                 );
                 if bin_deref.lock_state.fetch_add(-READER, Ordering::SeqCst) == (READER | WAITER) {
                     // we were the last reader holding up a waiting writer, so
